@@ -93,6 +93,10 @@ site('init.c', 'parseinit', 'error', 'cannot initialize array with string litera
      T('decl', 'int a_[] = "abc";'), T('decl', 'char a_[] = L"abc";'), T('decl', 'unsigned short a_[4] = U"abc";'), T('decl', 'struct { short s_[4]; } x_ = { "ab" };'))
 site('init.c', 'parseinit', 'error', "expected ',' or '}' after initializer",
      T('decl', 'int a_[2] = { 1 2 };'), T('decl', 'int a_[2] = { 1; };'), T('decl', 'struct s_ x_ = { 1, { 1 } 2 };', pre=PI))
+site('init.c', 'parseinit', 'error', 'initializer for array, struct or union must be enclosed in braces',
+     T('decl', 'int a_[2] = 5;', note='regression (fixed c965ad9): was accepted by eliding the outermost braces'), T('decl', 'struct s_ x_ = 1;', pre=PI),
+     T('bdecl', 'char a_[4] = *"hello";', note='crashed the code generator'), T('bdecl', 'int a_[2] = h_l;'), T('decl', 'union { int a_; } u_ = 0;'),
+     T('expr', '(int[2])1, 1', skip=('*',), note='a compound literal always has braces: syntax error first'))
 site('init.c', 'parseinit', 'error', 'initializer specified for incomplete type',
      T('decl', 'struct u_ x_ = { 0 };'), T('expr', '(struct u_){ 0 }, 1'), T('bdecl', 'void x_ = { 0 };'))
 site('init.c', 'parseinit', 'error', 'initializer specified for variable length array type',
